@@ -87,10 +87,15 @@ def check_hx(pid, tier, seed):
             agg["executions"] += st["worlds_built"]
             agg["transitions"] += st["phases"]
             agg["states"] += st["phases"]
+            if "events" in leg["features"]:
+                if not o["violations"] and st.get("event_log_entries_compared", 0) == 0:
+                    raise MachineryError("population leg on the events build compared no event logs")
+                agg["counters"]["events_compared"] = agg["counters"].get("events_compared", 0) + st.get("event_log_entries_compared", 0)
             agg["counters"]["population_lookups"] = agg["counters"].get("population_lookups", 0) + st["lookups"] + st["iteration_items"]
             agg["legs"].append({"scenario": "POP/whole-population", "config": "%s[%s]" % (leg["profile"], ",".join(leg["features"])), "population_sizes": sizes, "initial_capacities": ["0 (through growth)", "exactly the population"],
                                 "phases_each_followed_by_a_sweep_of_every_issued_handle": st["phases"], "lookups": st["lookups"], "iteration_items": st["iteration_items"], "entities_created": st["entities_created"],
-                                "entities_destroyed": st["entities_destroyed"], "refills_without_growth": st["refills_without_growth"], "handles_compared_for_reissue": st["handles_compared_for_reissue"],
+                                "entities_destroyed": st["entities_destroyed"], "refills_without_growth": st["refills_without_growth"], "handles_compared_for_reissue": st["handles_compared_for_reissue"], "event_log_entries_compared": st.get("event_log_entries_compared", 0), "event_size_hints_checked": st.get("event_size_hints_checked", 0),
+                                "all_zst_archetype": {"worlds": st.get("zst_worlds", 0), "sweeps": st.get("zst_sweeps", 0), "values_accounted": st.get("zst_values_balanced", 0)},
                                 "unique_states": st["phases"], "transitions": st["phases"], "capped": False, "wall_s": round(o["wall_s"], 1)})
             agg["samples"].append({"scenario": "POP/whole-population", "history": ["fill", "overwrite 2/3 (query, slices)", "destroy every third (4 key kinds)", "ecs_iter_destroy! another third", "refill within capacity", "clone, sweep the clone, empty the clone, sweep the original"]})
             for v in o["violations"]:
